@@ -5,6 +5,7 @@
 // No factory is linked in: the library's default (file) data source is under test.
 #include <cinttypes>
 #include <cstdio>
+#include <cstdlib>
 #include <sstream>
 #include <string>
 
@@ -47,7 +48,42 @@ static std::string digest(const cctz::time_zone& tz) {
   snprintf(b, sizeof b, "%016" PRIx64, h);
   return b;
 }
+static std::string unhex(const std::string& h) {
+  std::string o;
+  for (size_t i = 1; i + 1 < h.size(); i += 2) o += static_cast<char>(std::stoi(h.substr(i, 2), nullptr, 16));
+  return o;
+}
+// --seq FILE: one step per line, executed in order in this one process:
+//   E <hex var> <hex value>   setenv        U <hex var>   unsetenv
+//   L <hex name>              load_time_zone (prints an L line)      T   local_time_zone() (prints a T line)
+static int run_seq(const char* file) {
+  const cctz::time_zone utc = cctz::utc_time_zone();
+  FILE* f = fopen(file, "r");
+  if (!f) return 3;
+  char op[8], a[8192], b[8192];
+  char line[20000];
+  while (fgets(line, sizeof line, f)) {
+    a[0] = b[0] = 0;
+    if (sscanf(line, "%7s %8191s %8191s", op, a, b) < 1) continue;
+    if (op[0] == 'E') {
+      setenv(unhex(a).c_str(), unhex(b).c_str(), 1);
+    } else if (op[0] == 'U') {
+      unsetenv(unhex(a).c_str());
+    } else if (op[0] == 'L') {
+      std::string name = unhex(a);
+      cctz::time_zone tz = cctz::fixed_time_zone(cctz::seconds(11));
+      bool ok = cctz::load_time_zone(name, &tz);
+      printf("L %s %d %s %d %s\n", hex(name).c_str(), ok ? 1 : 0, hex(tz.name()).c_str(), tz == utc ? 1 : 0, digest(tz).c_str());
+    } else if (op[0] == 'T') {
+      cctz::time_zone l = cctz::local_time_zone();
+      printf("T %s %d %s\n", hex(l.name()).c_str(), l == utc ? 1 : 0, digest(l).c_str());
+    }
+  }
+  fclose(f);
+  return 0;
+}
 int main(int argc, char** argv) {
+  if (argc == 3 && std::string(argv[1]) == "--seq") return run_seq(argv[2]);
   const cctz::time_zone utc = cctz::utc_time_zone();
   for (int i = 1; i < argc; ++i) {
     std::string name = argv[i];
